@@ -196,7 +196,7 @@ class NonCovalentlyCoupledGroups:
                 for group2 in titratable_groups:
                     if group1 is group2:
                         break
-                    if (group1 not in group2.non_covalently_coupled_groups
+                    if (not any(group1 is g for g in group2.non_covalently_coupled_groups)
                             and self.do_prot_stat):
                         data = (
                             self
